@@ -187,6 +187,39 @@ def packMapLoop : List Int → List Item → W → Option (List Item × W)
           packMapLoop ds (listSet ents i val) w
     | _ => none
 
+/-- SETITEM after the item was taken (and, if it is a Struct, cloned): key and container are popped,
+the old child is discounted, the item stored (vm.go:1453-1511) -/
+def setitemTail (i : Int) (cloned : Item) (w : W) : Option Outcome :=
+  match w.pop with
+  | none => none
+  | some (key, w) => match w.pop with
+    | none => none
+    | some (obj, w) =>
+      match obj with
+      | .arr id | .str id =>
+        if i < 0 then some (.throw { w with c := w.c.rem cloned })
+        else
+          let ch := chOf w.c.heap id
+          match ch[i.toNat]? with
+          | none => none
+          | some old =>
+            let w : W := if rcOf w.c.heap id ≠ 0 then { w with c := w.c.rem old } else { w with c := w.c.rem cloned }
+            okW (w.setHeap (setCh w.c.heap id (listSet ch i.toNat cloned)))
+      | .map id =>
+        let ch := chOf w.c.heap id
+        if i < 0 then
+          let w : W := if rcOf w.c.heap id ≠ 0 then { w with c := w.c.add key } else { w with c := w.c.rem cloned }
+          okW (w.setHeap (setCh w.c.heap id (ch ++ [key, cloned])))
+        else
+          match ch[2 * i.toNat + 1]? with
+          | none => none
+          | some old =>
+            let w : W := if rcOf w.c.heap id ≠ 0 then { w with c := w.c.rem old } else { w with c := w.c.rem cloned }
+            okW (w.setHeap (setCh w.c.heap id (listSet ch (2 * i.toNat + 1) cloned)))
+      | .prim =>                                         -- Buffer
+        let w : W := { w with c := w.c.rem cloned }
+        if i < 0 then some (.throw w) else okW w
+
 /-- instructions that only touch the counter, the heap and the current stack.
 `pops`/`pushes` of the generic form are given by the driver's table. -/
 inductive SOp where
@@ -299,35 +332,7 @@ def execS (op : SOp) (w : W) : Option Outcome :=
       | none => none
       | some (cloned, isS, w) =>
         let w : W := if isS then { w with c := (w.c.rem item).add cloned } else w
-        match w.pop with
-        | none => none
-        | some (key, w) => match w.pop with
-          | none => none
-          | some (obj, w) =>
-            match obj with
-            | .arr id | .str id =>
-              if i < 0 then some (.throw { w with c := w.c.rem cloned })
-              else
-                let ch := chOf w.c.heap id
-                match ch[i.toNat]? with
-                | none => none
-                | some old =>
-                  let w : W := if rcOf w.c.heap id ≠ 0 then { w with c := w.c.rem old } else { w with c := w.c.rem cloned }
-                  okW (w.setHeap (setCh w.c.heap id (listSet ch i.toNat cloned)))
-            | .map id =>
-              let ch := chOf w.c.heap id
-              if i < 0 then
-                let w : W := if rcOf w.c.heap id ≠ 0 then { w with c := w.c.add key } else { w with c := w.c.rem cloned }
-                okW (w.setHeap (setCh w.c.heap id (ch ++ [key, cloned])))
-              else
-                match ch[2 * i.toNat + 1]? with
-                | none => none
-                | some old =>
-                  let w : W := if rcOf w.c.heap id ≠ 0 then { w with c := w.c.rem old } else { w with c := w.c.rem cloned }
-                  okW (w.setHeap (setCh w.c.heap id (listSet ch (2 * i.toNat + 1) cloned)))
-            | .prim =>                                         -- Buffer
-              let w : W := { w with c := w.c.rem cloned }
-              if i < 0 then some (.throw w) else okW w
+        setitemTail i cloned w
   | .remove i => match w.pop with                             -- vm.go:1527-1570
     | none => none
     | some (_, w) => match w.pop with
